@@ -42,63 +42,46 @@ inductive LoadRes where
   | panic
   deriving Repr
 
-/-- Decode `n` items; the index of the failing item is reported. -/
-def decN {α} (dec : Bytes → Dec α) : (n : Nat) → (i : Nat) → Bytes → List α → Except (Nat × Bool) (List α × Bytes)
-  | 0, _, bs, acc => .ok (acc.reverse, bs)
-  | n+1, i, bs, acc =>
-    match dec bs with
-    | .ok a r => decN dec n (i+1) r (a :: acc)
-    | .short => .error (i, false)
-    | .panic => .error (i, true)
+/-- Decode `n` items; a failure names the index of the failing item. -/
+def pMany {α} (what : String) (p : P α) : (n : Nat) → (i : Nat) → P (List α)
+  | 0, _ => pure []
+  | n+1, i => do
+    let a ← label s!"{what}[{i}]" p
+    let as ← pMany what p n (i+1)
+    pure (a :: as)
 
-def uvDecD (bs : Bytes) : Dec Nat :=
-  match uvDec bs with
-  | some (x, r) => .ok x r
-  | none => .short
-
-/-- `Prog.Load` on the concatenated input. -/
-def load (bs : Bytes) : LoadRes :=
-  if bs.length < 2 then .err "missing magic header"
-  else if bs.take 2 ≠ magic then .err "invalid magic header"
+/-- Magic and version. -/
+def pHeader : P Unit := fun bs =>
+  if bs.length < 2 then .fail "missing magic header"
+  else if bs.take 2 ≠ magic then .fail "invalid magic header"
   else
-    let bs := bs.drop 2
-    if bs.length < 2 then .err "missing bcode major/minor version" else
-    match bs with
-    | ma :: mi :: bs =>
-      if ma ≠ verMajor then .err "invalid bcode major version"
-      else if mi > verMinor then .err "invalid bcode minor version"
-      else
-        match uvDec bs with
-        | none => .err "name size"
-        | some (m, bs) =>
-          if bs.length < m then .err "name too short" else
-          let name := bs.take m
-          let bs := bs.drop m
-          match uvDec bs with
-          | none => .err "code size"
-          | some (m, bs) =>
-            if bs.length < m then .err "code too short" else
-            let code := bs.take m
-            let bs := bs.drop m
-            match uvDec bs with
-            | none => .err "constants size"
-            | some (m, bs) =>
-              match decN valueDec m 0 bs [] with
-              | .error (i, false) => .err s!"constant[{i}]"
-              | .error (_, true) => .panic
-              | .ok (consts, bs) =>
-                match uvDec bs with
-                | none => .err "positions size"
-                | some (m, bs) =>
-                  match decN uvDecD m 0 bs [] with
-                  | .error (i, _) => .err s!"position[{i}]"
-                  | .ok (positions, bs) =>
-                    match uvDec bs with
-                    | none => .err "lfs size"
-                    | some (m, bs) =>
-                      match decN uvDecD m 0 bs [] with
-                      | .error (i, _) => .err s!"lfs[{i}]"
-                      | .ok (lfs, _) => .ok { name, code, consts, positions, lfs }
-    | _ => .err "missing bcode major/minor version"
+    match bs.drop 2 with
+    | ma :: mi :: r =>
+      if ma ≠ verMajor then .fail "invalid bcode major version"
+      else if mi > verMinor then .fail "invalid bcode minor version"
+      else .ok () r
+    | _ => .fail "missing bcode major/minor version"
+
+/-- The body of `Prog.Load`. -/
+def pProg : P Prog := do
+  pHeader
+  let n ← label "name size" pUv
+  let name ← label "name too short" (pTake n)
+  let n ← label "code size" pUv
+  let code ← label "code too short" (pTake n)
+  let n ← label "constants size" pUv
+  let consts ← pMany "constant" pValue n 0
+  let n ← label "positions size" pUv
+  let positions ← pMany "position" pUv n 0
+  let n ← label "lfs size" pUv
+  let lfs ← pMany "lfs" pUv n 0
+  pure { name, code, consts, positions, lfs }
+
+/-- `Prog.Load` on the concatenated input (trailing bytes are accepted, as in Go). -/
+def load (bs : Bytes) : LoadRes :=
+  match pProg bs with
+  | .ok p _ => .ok p
+  | .fail m => .err m
+  | .panic => .panic
 
 end Bclv
